@@ -255,7 +255,10 @@ def run(prog, tier, extra=None):
     for nb in inner:
         hdr = mg.innermost_loop_containing([nb])
         loop = mg.natural_loop(hdr) if hdr is not None else set()
-        if any(p_ in loop for p_ in pushes) and any(mg.dominates(gt, nb) for gt in guard_true_targets):
+        rng = chm.origin(mg.term(nb)["args"][0])
+        floor_one = any(y[0] in ("call", "via") and y[1].rsplit("::", 1)[-1] == "max" and any(
+            z[0] == "const" and isinstance(z[1], int) and z[1] >= 1 for z in (y[2] if y[0] == "call" else [y[2]]) if isinstance(z, tuple)) for y in walk(rng))
+        if any(p_ in loop for p_ in pushes) and (floor_one or any(mg.dominates(gt, nb) for gt in guard_true_targets)):
             assumed |= some_none_edges(nb)[1]      # behind `txs_replacements > k` the leaf loop has run before it is left
     res.instance(R6, max(len(outer), 1))
     if not outer or not pushes:
